@@ -694,13 +694,59 @@ var guardedFields = map[string][]string{
 }
 
 func c01Guarded(c *Ctx) {
-	const R = "C01.7"
-	acc := c.P.lockAnalysis(func(pk string) bool { return pk == modPath })
+	guardedRule(c, "C01.7", "", guardedFields, 250, "API calls and the run loop touch this state concurrently")
+}
+
+// guardedFieldsC15: the stream maps are used by the application (Open/Accept) and the run loop (frames) concurrently.
+var guardedFieldsC15 = map[string][]string{
+	"outgoingStreamsMap": {"blockedSent", "closeErr", "openQueue", "maxStream", "nextStream", "streams"},
+	"incomingStreamsMap": {"streams", "nextStreamToAccept", "nextStreamToOpen", "maxNumStreams"},
+	"streamsMap":         {"reset"},
+}
+
+func c15Guarded(c *Ctx) {
+	guardedRule(c, "C15.6", "", guardedFieldsC15, 100, "OpenStream / AcceptStream callers and the run loop's frame handlers touch the maps concurrently")
+}
+
+// guardedFieldsC16: the routing table is shared by the receive loop, every connection's run loop and Close.
+var guardedFieldsC16 = map[string][]string{
+	"Transport": {"handlers", "resetTokens", "server"},
+}
+
+func c16Guarded(c *Ctx) {
+	guardedRule(c, "C16.8", "", guardedFieldsC16, 25, "the receive loop, every connection and Close use the routing table concurrently")
+}
+
+// guardedFieldsC18: http3 state shared between request goroutines.
+var guardedFieldsC18 = map[string][]string{
+	"Server":              {"altSvcHeader", "closed", "listeners"},
+	"Transport":           {"clients", "closed"},
+	"stateTrackingStream": {"queue", "recvErr", "sendErr"},
+	"rawConn":             {"streams"},
+	"ClientConn":          {"lastStreamID", "maxStreamID"},
+}
+
+func c18Guarded(c *Ctx) {
+	guardedRule(c, "C18.7", "http3", guardedFieldsC18, 50, "request goroutines, the control-stream reader and Close run concurrently")
+}
+
+// guardedRule: every access (outside constructors and init bodies) to the listed fields happens with a mutex of the
+// owning struct held (LOCK engine).
+func guardedRule(c *Ctx, R, pkg string, table map[string][]string, floor int, why string) {
+	full := modPath
+	if pkg != "" {
+		full = modPath + "/" + pkg
+	}
+	acc := c.P.lockAnalysis(func(pk string) bool { return pk == full })
 	want := map[*types.Var]string{}
 	mutexes := map[*types.Var][]*types.Var{}
-	for typ, fields := range guardedFields {
-		tn := c.named("", typ)
-		st := tn.Type().Underlying().(*types.Struct)
+	for typ, fields := range table {
+		tn := c.named(pkg, typ)
+		st, ok := tn.Type().Underlying().(*types.Struct)
+		if !ok {
+			c.Bad(R, "struct:"+typ, "-", "not a struct")
+			continue
+		}
 		var mus []*types.Var
 		for i := 0; i < st.NumFields(); i++ {
 			if typeIs(st.Field(i).Type(), "sync", "Mutex") || typeIs(st.Field(i).Type(), "sync", "RWMutex") {
@@ -712,7 +758,7 @@ func c01Guarded(c *Ctx) {
 			continue
 		}
 		for _, f := range fields {
-			v := c.fld("", typ, f)
+			v := c.fld(pkg, typ, f)
 			want[v] = typ + "." + f
 			mutexes[v] = mus
 		}
@@ -746,9 +792,9 @@ func c01Guarded(c *Ctx) {
 	total := 0
 	for _, key := range sortedKeys(wantKeys(want)) {
 		total += n[key]
-		c.Check(len(bad[key]) == 0 && n[key] > 0, R, "guarded:"+key, "-", fmt.Sprintf("%d accesses outside the constructors, all with the owner's mutex held (API calls and the run loop touch this state concurrently)%s", n[key], map[bool]string{true: "", false: " — without the mutex: " + strings.Join(bad[key], "; ")}[len(bad[key]) == 0]))
+		c.Check(len(bad[key]) == 0 && n[key] > 0, R, "guarded:"+key, "-", fmt.Sprintf("%d accesses outside the constructors, all with the owner's mutex held (%s)%s", n[key], why, map[bool]string{true: "", false: " — without the mutex: " + strings.Join(bad[key], "; ")}[len(bad[key]) == 0]))
 	}
-	c.Floor(R, "accesses to guarded stream / framer fields", total, 250)
+	c.Floor(R, "accesses to guarded fields", total, floor)
 }
 
 func wantKeys(m map[*types.Var]string) map[string]bool {
